@@ -523,6 +523,10 @@ def check_with_execution_state(ctx, prog, tag):
         if tag == "[MIN]":
             return
         ctx.need(False, "C05.B4: with_execution_state not found")
+    # read through the private helpers of State parts of it may have been moved into (`frame_checkpoint(..)`,
+    # `rewind_frames(..)`, `restore_block_state(..)`)
+    from .. import inline as _inl0
+    wes = _inl0.view(prog, wes, keep=lambda t: not t.startswith("minijinja::vm::state::"), max_blocks=80)
     # the closure call
     calls = [c for c in wes.calls() if c.name.startswith("core::ops::function::FnOnce::call_once") or c.indirect]
     ctx.need(len(calls) >= 1, "C05.B4: no call of the evaluation closure found in with_execution_state")
@@ -584,7 +588,7 @@ def check_with_execution_state(ctx, prog, tag):
             # isolated one (a macro call brings a context of its own) each call of the closure is followed by the restore.
             from .. import typestate, inline as _inl
             BS = "minijinja::vm::state::BlockState"
-            wv = _inl.view(prog, wes, keep=("restore_stack_depth", "stack_depth", "call_once"))
+            wv = wes
             bs_local = next((i for i in range(1, wv.argc + 1) if wv.locals[i].get("adt") == BS), None)
             kinds = [v for v in (prog.variants(BS) if prog.adts.get(BS) else []) if v != "Isolate"]
             okr = bs_local is not None and bool(kinds)
